@@ -16,7 +16,7 @@ TECHNIQUE = "differential oracle: DSL-built tree vs plain Python arithmetic on t
 RULE = ("depth-2: every (outer op, operand position, inner op) over + - * / ** % neg, 6 comparisons, If/And/Or/Not, "
         "min max abs sqrt exp sin cos tan arctan round and 7 array aggregates, x4 leaf-kind rotations (constant, converter, stock, python "
         "float left/right, time()); deeper: seeded random typed trees of depth 3-5. Each tree runs in 2 contexts "
-        "(converter; stock equation through one Euler step). distinct_nontrivial = distinct (outer,pos,inner) triples "
+        "(converter; stock equation through one Euler step). Plus 25 forms in which an arrayed expression (negated, scaled, summed) stands where a scalar function, a power, a comparison or an If branch expects a single value: each must be rejected. distinct_nontrivial = distinct (outer,pos,inner) triples "
         "(or tree digests for deep trees) whose value changes when compound operands are pasted without parentheses.")
 ASSUMPTIONS = ["Python semantics for and/or/not, bool-as-int and % are 'ordinary arithmetic'",
                "trees whose reference value is non-finite, complex, out of 1e-9..1e12 or within 1e-6 of a discontinuity are dropped (counted)",
@@ -130,8 +130,17 @@ def rand_tree(rng, depth, typ="n"):
     return mk(sh, [rand_tree(rng, depth - 1, t) for t in sh[1]])
 
 
+ARRAY_AS_SCALAR = ["F.abs(-A)", "F.max(2.0*A, 0.0)", "F.min(x, -A)", "F.If(x > 1.0, -A, x)", "F.If(x > 1.0, x, 2.0*A)", "(-A)**2", "(3.0*A) > x", "x - F.abs(2.0*A)",
+                   "F.abs(A)", "F.max(A+A, 1.0)", "F.sqrt(A*2.0)", "x % (-A)", "F.exp(-A)", "F.abs(A-A)", "F.round(2.0*A, 1)", "(A*A) > x", "F.min(A, x)", "F.abs(-(-A))",
+                   "F.max(M*2.0, x)", "F.abs(-M)", "x ** (2.0*A)", "F.sin(-A)", "F.If(A > 1.0, x, x)", "F.abs(A/2.0)", "F.max(-A, -A)"]
+
+
 def gen_cases(tier, seed):
     cases = depth2_cases()
+    # an arrayed expression where a single value is expected has no value: it must be rejected (at definition or at evaluation)
+    for form in ARRAY_AS_SCALAR:
+        for ctx in ("converter", "stock"):
+            cases.append(dict(kind="array-as-scalar", form=form, ctx=ctx, vals=0))
     rng = random.Random(1000 + seed)
     n = 2500 if tier == "quick" else 120000
     for i in range(n):
@@ -193,8 +202,28 @@ def build_model(vals):
     return m, E
 
 
+def run_array_as_scalar(case):
+    import BPTK_Py.sddsl.functions as F
+    vals = VALSETS[case["vals"]]
+    m, E = build_model(vals)
+    counters = {"array_as_scalar_forms": 1}
+    try:
+        d = eval(case["form"], {}, dict(F=F, A=E["vec"], M=E["mat"], x=E["c1"]))
+        el = m.converter("probe") if case["ctx"] == "converter" else m.stock("probe")
+        if case["ctx"] == "stock":
+            el.initial_value = 0.25
+        el.equation = d
+        v = el(T0 + DT)
+    except Exception as e:
+        return dict(verdict="rejected", counters=counters, sample=dict(form=case["form"], rejected_with=type(e).__name__))
+    return dict(verdict="violated", counters=counters, mech="array-accepted-as-scalar",
+                witness=dict(form=case["form"], context=case["ctx"], value=repr(v), function_string=getattr(el, "function_string", None)))
+
+
 def run_case(case):
     import math
+    if case["kind"] == "array-as-scalar":
+        return run_array_as_scalar(case)
     vals = VALSETS[case["vals"]]
     tree = case["tree"]
     env = X.Env(vals, t=T0, vecs=VECS)
